@@ -345,7 +345,7 @@ fn one_case(cfg: &Cfg, r: &mut Report, rt: &tokio::runtime::Runtime, rng: &mut R
     }
     drop(app);
 
-    let frames = match truth::parse_log(&store.log_bytes()) {
+    let frames = match truth::parse_log(&store.log_bytes_settled()) {
         Ok(f) => f,
         Err(e) => {
             r.inconclusive(&format!("case {idx}: log unreadable: {}", e.detail));
@@ -560,7 +560,7 @@ fn one_case(cfg: &Cfg, r: &mut Report, rt: &tokio::runtime::Runtime, rng: &mut R
 /// appended after the cut for a to_seq at or before the cut? Then the cause is the known one: the
 /// compiler selects checkpoints by `to_seq <= cut` regardless of where the checkpoint frame itself sits.
 fn later_checkpoint_explains(work: &Store, thread: &str, expect: &Value, got: &Value) -> bool {
-    let Ok(frames) = truth::parse_log(&work.log_bytes()) else {
+    let Ok(frames) = truth::parse_log(&work.log_bytes_settled()) else {
         return false;
     };
     let anchor = expect["from_message_id"].as_str().unwrap_or("");
